@@ -22,6 +22,15 @@
 (***************************************************************************)
 EXTENDS HamTwin, Json, IOUtils, TLCExt
 
+\* Strict = TRUE : the two paths must agree bit for bit on every observation (rank equality).
+\* Strict = FALSE: only the DISCRETE behaviour must agree -- the same sequence of driver actions (attempt,
+\*   accept / reject, crossing flag, refinement, helper calls by name, hit / no hit) -- while the driver rules
+\*   are evaluated on the generic path's values.  Used to classify a strict rejection: a pair that is
+\*   accepted loosely and whose outputs agree to rounding level differs only by floating-point
+\*   re-association in one copy, which is still "the same trajectory"; a pair rejected loosely took a
+\*   different accept / reject / event decision somewhere.
+CONSTANT Strict
+
 Traces == JsonDeserialize(IOEnv.TRACE_FILE)
 
 VARIABLES tid, l
@@ -48,7 +57,9 @@ TraceInit ==
 Both(e) == /\ l <= Len(GEv) /\ l <= Len(HEv)
            /\ GEv[l].e = e /\ HEv[l].e = e
            /\ l' = l + 1 /\ tid' = tid
-Same == GEv[l] = HEv[l]
+Fld(e, f, dflt) == IF f \in DOMAIN e THEN e[f] ELSE dflt
+Discrete(e) == <<e.e, Fld(e, "n", ""), Fld(e, "c", FALSE), Fld(e, "hit", FALSE), Len(Fld(e, "x", <<>>))>>
+Same == IF Strict THEN GEv[l] = HEv[l] ELSE Discrete(GEv[l]) = Discrete(HEv[l])
 E == GEv[l]
 
 TraceStart ==
